@@ -1172,7 +1172,9 @@ func (w *World) Idle() bool {
 			return false
 		}
 		for _, s := range c.allSubs() {
-			if s.busy || (!s.closed && len(s.inbox) > 0) {
+			// a callback that is still running on a subscription the application has unsubscribed (or closed) is
+			// the application's own business; if it goes on to use the bus, that shows in an uplink
+			if !s.closed && (s.busy || len(s.inbox) > 0) {
 				return false
 			}
 		}
